@@ -240,7 +240,8 @@ func (m *mavenExtension) init(input string) error {
 // isEmptyMavenElem reports whether is defined to be equivalent
 // to the empty string for the purpose of ordering.
 func isEmptyMavenElem(s string) bool {
-	if s == "0" {
+	// A zero may be spelled with several digits ("00"); Maven reads it as 0.
+	if s != "" && strings.Trim(s, "0") == "" {
 		return true
 	}
 	return mavenVersionQualifierOrder[s] == mavenEmptyQualifier
